@@ -11,7 +11,19 @@ CLAIMS = {
         "technique": "TLA+ spec (DagLib/DSep) + TLC exhaustive generation replayed on the code + TLC trace validation",
         "design_ref": "6/C08",
     },
+    "C01": {
+        "text": ("The VE machine (spec/VE.tla, MC_VE.tla) transcribes pgmpy's pruning, evidence reduction and elimination loop with the "
+                 "elimination order left nondeterministic; TLC checks on every (instance, query, evidence, virtual evidence, order) that "
+                 "pruning is sound, that the product invariant holds exactly after every step and that the final table is the posterior "
+                 "of the full CPD-product joint (integer arithmetic). Every terminal state is replayed on VariableElimination.query "
+                 "(explicit order, every heuristic, greedy einsum path, joint T/F, several hash seeds, state-name types); queries recorded "
+                 "from random 4-7 node networks with the H-VE hook are validated step by step by TLC (Trace_C01)."),
+        "note": ("Small-scope exhaustive control (orders, queries, evidence) over a seeded instance file of CPD values (TLC cannot enumerate "
+                 "real-valued tables); floats compared at 1e-9 against exact rationals; P(evidence)=0 excluded."),
+        "technique": "TLA+ step machine of variable elimination model-checked with TLC; behaviours replayed on the code; hook traces validated by TLC",
+        "design_ref": "6/C01",
+    },
 }
 
 NOT_APPLICABLE = {}
-HOOK_COMMITS = []
+HOOK_COMMITS = ["2121f06", "2905ba4"]
